@@ -463,12 +463,23 @@ func (e *Engine) runOnce(c *Contract, fn *ssa.Function, res *FuncResult) {
 		return
 	}
 	fr.entry = entry
+	everything := false
+	for _, a := range c.Assigns {
+		if a.Kind == "everything" {
+			everything = true
+		}
+	}
 	if !out.dead {
 		for _, cl := range c.Ensures {
 			g := e.evalClauseAt(fr, out, entry, cl, results)
 			e.addObligation(fr, out, "post", cl.Label, g, cl)
 		}
-		if c.HasAssigns {
+		if e.havocAllMin >= 0 && len(e.heapSorts) > e.havocAllMin {
+			// a heap was first touched after a havoc-everything: run again now that it is known
+			e.restart = true
+			return
+		}
+		if c.HasAssigns && !everything {
 			var targets []*havocTarget
 			for _, a := range c.Assigns {
 				targets = append(targets, e.assignTargets(fr, entry, a, nil)...)
